@@ -106,13 +106,14 @@ def buildKind (kind : String) (n : Nat) (prog : List (Call (Pt Int) (List Int)))
     ((BuilderWithAttributes.new (S := Int) n).run prog).map fun r => (r.1.build, r.2)
 
 /-- `path.as_slice()` views and the views of `path.transformed(&Translation(dx, dy))`
-(`Adapt.applyTransform`, the C16 model of `apply_transform`) -/
-def sliceAndTransformedViews (p : PathData Int) (dx dy : Int) : List String :=
-  let q := Adapt.applyTransform (fun pt => (pt.1 + dx, pt.2 + dy)) p
-  [ "slice", sOpt (sEvents sAPt) (p.asSlice.bind PathData.iterWithAttributes),
-    "xf", sOpt (sEvents sPt) q.iter,
-    "xfa", sOpt (sEvents sAPt) q.iterWithAttributes,
-    "xflast", sEndpoint q.lastEndpoint ]
+(`Adapt.applyTransform`, the C16 model of `apply_transform`); `none` = an index of the
+`apply_transform` walk is outside the storage (Rust: the case panics) -/
+def sliceAndTransformedViews (p : PathData Int) (dx dy : Int) : Option (List String) :=
+  (Adapt.applyTransform (fun pt => (pt.1 + dx, pt.2 + dy)) p).map fun q =>
+    [ "slice", sOpt (sEvents sAPt) (p.asSlice.bind PathData.iterWithAttributes),
+      "xf", sOpt (sEvents sPt) q.iter,
+      "xfa", sOpt (sEvents sAPt) q.iterWithAttributes,
+      "xflast", sEndpoint q.lastEndpoint ]
 
 def path (v : Tok) : String :=
   let kind := v.getD 0 ""
@@ -123,7 +124,9 @@ def path (v : Tok) : String :=
   match buildKind kind n prog with
   | none => "panic"
   | some (p, ids) =>
-    join (["ids", unwords (ids.map sNat)] ++ views p ++ reversedViews p ++ sliceAndTransformedViews p dx dy)
+    match sliceAndTransformedViews p dx dy with
+    | none => "panic"
+    | some xv => join (["ids", unwords (ids.map sNat)] ++ views p ++ reversedViews p ++ xv)
 
 partial def rdProgs (v : Tok) (n : Nat) (k : Nat) (i : Nat) (acc : List (List (Call (Pt Int) (List Int)))) :
     List (List (Call (Pt Int) (List Int))) × Nat :=
